@@ -190,6 +190,12 @@ func (d *Decoder) ReadList(flag int32) (interface{}, error) {
 	switch {
 	case tag == _nilTag:
 		return nil, nil
+	case tag == _objectDefTag:
+		// value ::= class-def value
+		if err := d.readObjectDef(); err != nil {
+			return nil, err
+		}
+		return d.ReadList(_tagRead)
 	case refTag(tag):
 		return d.readRef(tag)
 	case typedListTag(tag):
